@@ -116,7 +116,10 @@ TEMPLATES = ["X", "`X`", "``X``", "```X\nb\n```\n", "``` a X\nb\n```\n", "~~~ X\
              "X\n---\n", "<http://X>", "<X@a.b>", "<mailto:X>", "<X>", "<a href=\"X\">", "<a X=\"y\">", "<!--X-->",
              "<?X?>", "<![CDATA[X]]>", "<div X>\na\n</div>\n", "&X;", "&#X;", "~~X~~", "*X*", "**X**", "> X\n",
              "- X\n", "2. X\n", "123456789. X\n", "http://a/X", "www.a.b/X", "x@y.z X", "\"X\"", "'X'", "X  \nX\\\nX\nX",
-             "-X-\n\n(c) X ... -- +-X"]
+             "-X-\n\n(c) X ... -- +-X",
+             # destinations that pass the data:image whitelist, with metacharacters after the prefix
+             "[a](data:image/png;X)", "![a](data:image/gif;X)", "<data:image/jpeg;X>", "[a]: data:image/webp;X\n\n[a]\n",
+             "[a](<data:image/png;X> \"X\")", "![X](DATA:IMAGE/PNG;X)"]
 
 _KITCHEN_OPTS = {"html": False, "typographer": True, "quotes": ["<", ">", "&", "\""], "langPrefix": "<&\" x",
                  "xhtmlOut": True, "breaks": True, "store_labels": True, "linkify": True}
